@@ -21,9 +21,9 @@ THEOREMS = ['C04_sumQ_reindex', 'C04_symterm_equivariant', 'C04_prog_equivariant
             'C04_measure_equivariant_scalar', 'C04_measure_equivariant_vector', 'C04_measure_equivariant_matrix',
             'C04_library_equivariant', 'C04_degrees_und', 'C04_clustering_coef_bu', 'C04_transitivity_bu',
             'C04_matching_ind', 'C04_gtom', 'C04_distance_bin', 'C04_kcore_bu', 'C04_participation_coef',
-            'C04_module_degree_zscore', 'C04_components', 'C04_assortativity_wei',
+            'C04_module_degree_zscore', 'C04_components', 'C04_assortativity_wei', 'C04_betweenness_bin', 'C04_kcoreness',
             'C04_pagerank_equation_partial', 'C04_eigenvector_equation_partial', 'C04_subgraph_truncation_partial',
-            'C04_list_permutation', 'C04_run_equivariant', 'C04_denote_degrees_und', 'C04_denote_transitivity_bu']
+            'C04_list_permutation', 'C04_run_equivariant', 'C04_every_term_measure_equivariant', 'C04_denote_degrees_und', 'C04_denote_transitivity_bu']
 RULE = ('structured graphs (cycles, complete, complete bipartite, stars, paths, disjoint copies, cube: repeated eigenvalues; '
         'isolated nodes) and Erdos-Renyi matrices n=2..8, binary/weighted (dyadic weights from a 2-4 element set: many '
         'ties), directed/undirected, signed, with label vectors (non-contiguous labels); every n! permutation for n<=4 '
@@ -39,6 +39,8 @@ ASSUMES = ['outputs the property leaves free are not compared: eigenvector sign 
 TRUSTED = ['ocaml/drv_c04.ml interprets the abstract primitives sqrt/cbrt through binary64 (only used by tolerance-compared measures)']
 
 TOL = 1e-9
+# current behaviour of the unchanged tree: len(intersection)/len(union) with an empty union (an edge whose endpoints have no other neighbour)
+RAISES_OK = {('edge_nei_overlap_bu', 'ZeroDivisionError'), ('edge_nei_overlap_bd', 'ZeroDivisionError')}
 
 
 # ---------------------------------------------------------------- inputs
@@ -379,6 +381,28 @@ def corr_entries(bct, g):
     for fl in (1, 2, 3, 4):
         add('assortativity_bin:%d' % fl, 38, fl, bd, lambda fl=fl: sc(bct.assortativity_bin(bd, fl)), False)
         add('assortativity_wei:%d' % fl, 39, fl, wd, lambda fl=fl: sc(bct.assortativity_wei(wd, fl)), False)
+    if n >= 1:
+        add('kcoreness_centrality_bu', 43, max(n - 1, 0), bu, lambda: row(bct.kcoreness_centrality_bu(bu)[0]), True)
+        add('kcoreness_centrality_bd', 44, max(n - 1, 0), bd, lambda: row(bct.kcoreness_centrality_bd(bd)[0]), True)
+    add('clustering_coef_wd', 45, 0, wd, lambda: row(bct.clustering_coef_wd(wd)), False)
+    add('transitivity_wd', 46, 0, wd, lambda: sc(bct.transitivity_wd(wd)), False)
+    if n >= 2:
+        add('efficiency_wei', 47, 0, wu, lambda: sc(bct.efficiency_wei(wu)), False)
+    add('betweenness_bin', 48, 0, bd, lambda: row(bct.betweenness_bin(bd)), False)
+    add('betweenness_bin:und', 48, 0, bu, lambda: row(bct.betweenness_bin(bu)), False)
+    Db = bct.distance_bin(bd)
+    add('charpath:ecc', 49, 0, bd, lambda: row(np.asarray(bct.charpath(Db, include_infinite=False)[2], float)), True)
+    if n >= 2 and np.isfinite(Db).all():
+        add('charpath:radius', 50, 0, bd, lambda: sc(bct.charpath(Db, include_infinite=False)[3]), True)
+        add('charpath:diameter', 51, 0, bd, lambda: sc(bct.charpath(Db, include_infinite=False)[4]), True)
+    for q in range(1, n):
+        add('findwalks:q%d' % q, 52, q, bd, lambda q=q: bct.findwalks(bd)[0][:, :, q], True)
+    Ji, err = safe(bct.jdegree, bd.astype(int))
+    if err is None:
+        J = Ji[0]
+        for a in range(J.shape[0]):
+            for b in range(J.shape[1]):
+                add('jdegree:J', 53, 0, bd, lambda a=a, b=b: sc(J[a, b]), True, ks=[a, b])
     return E
 
 
@@ -393,7 +417,7 @@ def run(ctx):
     for nm, B in structured():
         if len(B) <= 6 or ctx.thorough or nm in ('ring8', 'cube'):
             graphs.append(derive(ctx, nm, B))
-    for t in range(ctx.scale(36, 300)):
+    for t in range(ctx.scale(28, 300)):
         n = int(ctx.nprng.randint(2, 9))
         graphs.append(derive(ctx, 'er', random_skeleton(ctx, n)))
     nrand = ctx.scale(3, 6)
@@ -448,7 +472,11 @@ def run(ctx):
         for name, line, want, exact, case in corr_entries(bct, g):
             w, err = safe(want)
             if err is not None:
-                ctx.count('corr_skipped_impl_raises:' + name.split(':')[0])
+                # the implementation raises where the term has a value: only the two documented-as-is cases are tolerated
+                if (name.split(':')[0], err) in RAISES_OK:
+                    ctx.count('corr_skipped_impl_raises:' + name.split(':')[0])
+                else:
+                    ctx.mismatch(name.split(':')[0] + ':raises', 'implementation raises %s on an input of its domain (the term evaluates)' % err, case, None, err)
                 continue
             lines.append(line); pend.append((name, np.asarray(w, float), exact, case))
     # LAPACK measures: the defining equation (a term) is evaluated by the model on the implementation's result
@@ -505,3 +533,23 @@ def run(ctx):
 
 def _pagerank_raw(bct, A, d):
     return bct.pagerank_centrality(A, d)
+
+
+def replay(ctx, payload):
+    """./check C04 --replay replays/C04-input-….json : re-run one (measure, matrix, permutation) case on /repo"""
+    import bct, json
+    case = payload.get('case') or payload.get('detail', {}).get('case')
+    print(json.dumps({k: payload.get(k) for k in ('property', 'kind', 'key', 'what')}, indent=1))
+    if not case or 'perm' not in case:
+        print(json.dumps(payload, indent=1)[:4000]); return 0
+    m = [t for t in table() if t['name'] == case['measure']][0]
+    A = np.array(case['A'], float); p = np.array(case['perm'])
+    ci = np.array(case.get('ci', []), float)
+    a0 = (A.copy(), ci.copy()) if m['labels'] else (A.copy(),)
+    a1 = (A[np.ix_(p, p)].copy(), ci[p].copy()) if m['labels'] else (A[np.ix_(p, p)].copy(),)
+    r0, e0 = safe(m['f'], *a0); r1, e1 = safe(m['f'], *a1)
+    print('A =', A.tolist()); print('perm =', p.tolist())
+    print('f(A) =', tolist(r0), e0); print('f(A[ix_(p,p)]) =', tolist(r1), e1)
+    why = ('raises %s vs %s' % (e0, e1)) if (e0 or e1) and e0 != e1 else (None if (e0 or e1) else compare(m['outs'], r0, r1, p))
+    print('VIOLATION property=C04 (replayed): ' + why if why else 'equivariant on this case (no violation on the current tree)')
+    return 1 if why else 0
